@@ -75,7 +75,7 @@ def run(ck, prog, ctx):
         pushes = [t for _, t in dflt.calls() if t.callee.method == "push" and "HpoTermInternal" in (t.callee.def_args or "")]
         consts["default/pushes"] = len(pushes)
     ln = arena_fn(prog, "len")
-    if ck.anchor("TABLE", "Arena::len", ln):
+    if ck.anchor("TABLE", "Arena::len", ln, private=True):
         subs = [s for _, s in ln.stmts() if s.k == "assign" and s.rv["k"] == "bin" and s.rv["op"].startswith("Sub")]
         vals = [s.rv["r"].int_value() for s in subs]
         consts["len/sub"] = vals[0] if len(vals) == 1 else (0 if not vals else tuple(vals))
@@ -117,7 +117,7 @@ def run(ck, prog, ctx):
 
     for name in ("get", "get_mut"):
         b = arena_fn(prog, name)
-        if not ck.anchor("DOM", "Arena::" + name, b):
+        if not ck.anchor("DOM", "Arena::" + name, b, private=True):
             continue
         tests = zero_test_edges(b, pv, is_slot)
         idx_calls = [(bi, t) for bi, t in b.calls() if t.callee.method in ("index", "index_mut", "get_unchecked", "get_unchecked_mut") and "HpoTermInternal" in (t.callee.def_args or "")]
@@ -129,7 +129,7 @@ def run(ck, prog, ctx):
                   "Arena::%s hands out terms[slot] %s" % (name, "only on the slot != 0 edge" if ok else "without being dominated by a slot != 0 test: the placeholder term can be returned for an absent id"),
                   where=b.where(t.line))
     ins = arena_fn(prog, "insert")
-    if ck.anchor("DOM", "Arena::insert", ins):
+    if ck.anchor("DOM", "Arena::insert", ins, private=True):
         tests = zero_test_edges(ins, pv, is_slot)
         pushes = [(bi, t) for bi, t in ins.calls() if t.callee.method == "push" and "HpoTermInternal" in (t.callee.def_args or "")]
         writes = []
